@@ -42,6 +42,31 @@ TEXT = {
         note=TRUST + " str.upper() is modelled for ASCII only; identifiers are assumed ASCII."),
 }
 
+TEXT["C13"] = dict(
+    technique="Lean 4 proof (invariant over every query sequence of the one-entry docstring cache; equations for the comment assembly) + differential correspondence S-D/S-B/S-E",
+    text="Proof: Theorems/C13 proves for EVERY sequence of the five documentation queries that the cached parser answers "
+         "exactly like the cache-less lookup (invariant Cache.Valid, induction over the query list; an answer is independent "
+         "of all earlier queries), and gives exact line-for-line equations for the documentation comment (description "
+         "lines, one @param block per documented parameter, @result numbering, example code lines) as a function of the "
+         "element's own docstring fields only. Tie: S-D runs random query sequences (with repetitions/revisits) against "
+         "the real DocstringParser on real griffe trees and compares every record; S-B compares generated comments byte "
+         "for byte; S-E checks on generated packages (4 styles, unique marker texts) that each description reaches the "
+         "comment of its own element and no other.",
+    note=TRUST + " griffe's three docstring grammars are outside the model (the tree carries what griffe parsed; the "
+         "extractor applies griffe's parse_annotation to string annotations). Style independence is therefore not a "
+         "theorem; it is exercised by S-E only.")
+TEXT["C15"] = dict(
+    technique="Lean 4 proof (list induction over the discovery filter) + differential correspondence S-D (real discovery loop on generated directory trees)",
+    text="Proof: Theorems/C15 proves for all file lists: with the flag off the kept files are exactly those with no path "
+         "component equal to test/tests/docs (whole components: look-alikes are kept), with it on all files are kept; the "
+         "flag-off result is the flag-on result minus the skipped files; if no file lies in such a directory the flag is "
+         "irrelevant; every AST handed to the walker belongs to a kept file; the documented 'No files found' error arises "
+         "iff nothing is kept. The three directory names and the glob pattern are regenerated from the source (T1). Tie: "
+         "S-D runs the real discovery loop of get_api and _get_mypy_asts (mypy stubbed) on random directory trees.",
+    note=TRUST + " Path components are those of the resolved absolute path, so a source tree that itself lies under a "
+         "directory called tests is excluded entirely (stated; it is what upstream test data does). The end-to-end part "
+         "(stubs unaffected outside such directories) rests on the correspondence only.")
+
 NOT_YET = "not claimed yet: the model layer this property lives in is still under construction (see DESIGN.md §6 staging)"
 
 
